@@ -134,6 +134,9 @@ def make_worker(kind, cls, run):
                 self._dead = False
                 self._pid = 999999
     w = W(target=(lambda *a: None), run=run)
+    # the real pipes the constructors created (some are replaced by scripted ones below): closed at the end of the history,
+    # a long enumeration must not run out of file descriptors
+    w._verif_pipes = [getattr(w, a) for a in ('_comms', '_ctrl_comms', '_results_pipe', '_args_pipe') if getattr(w, a, None) is not None]
     if kind == 'KPersistentThread':
         class AE(FakeArgsEnd):
             def put(self, obj):
@@ -198,6 +201,12 @@ def play(kind, cls, run, ops):
                 viol.append(f'is_alive() returned {r} but the child is {"alive" if alive_now else "dead"}')
     finally:
         thread_mod.foreign_raise = orig
+        for pipe in getattr(w, '_verif_pipes', []):
+            for end in ('parent_end', 'child_end'):
+                try:
+                    getattr(pipe, end).close()
+                except Exception:
+                    pass
     return rets, log, child.alive and run, viol
 
 
